@@ -36,7 +36,14 @@ META = dict(
                 'utf_traits<char>::decode<char const*> and the loop of utf8::validate(p,e,count,html) are translated from the source as well and proved '
                 'equal to the model on every byte string (value and bytes consumed / answer and count); on the generated functions: next returns c iff the '
                 'input starts with a UTF8-char denoting c (HTML mode: an HTML-safe one), both generated decoders agree everywhere, validate returns true '
-                'iff well-formed (and HTML-safe) with count = incoming + number of code points.'),
+                'iff well-formed (and HTML-safe) with count = incoming + number of code points. The text widget as an OBJECT across requests '
+                '(state value_, code_points_, is_set_, is_valid_, limits, charset flag; transitions load (all paths) / clear / value(v) / limits / '
+                'validate): every load establishes, and every history without the setter preserves, that the stored count is the count of the stored '
+                'value; validate() = the one-shot widget answer for the current value and limits; the member functions load / validate / setter / clear '
+                'and the constructor initialiser list (names and literal values) are tied rigidly to src/form.cpp. The invariant holds over ALL histories from '
+                'the constructed widget, setters included: the setter holds v, valid, with count = code points when charset validation is on and v is '
+                'HTML-safe UTF-8, bytes otherwise (a value set by the program that is not valid UTF-8 is not rejected, it is measured in bytes); a never-loaded '
+                'widget validates as an empty value.'),
     level_note=('Trusted: Coq kernel + vm_compute; cxx2v translator (extended in checks/C14.py for the validator loop shape) and clang AST; '
                 'ExtrOcamlBasic extraction; the decoder switch/loops, validators_set table, validate_or_filter loops are modelled by hand and '
                 'tied by correspondence (all 1- and 2-byte sequences, boundary grid of 3/4-byte sequences, all 256 bytes and all byte pairs per '
@@ -641,9 +648,236 @@ def make_translators():
     return cxx2v, translate_validator, translate_step, translate_plain, translate_ptr_function, translate_table, translate_encoder, translate_decoder, translate_seq_encoder
 
 
+# ------------------------------------------------------------------------------------------------
+# widgets::base_text as an object with state (src/form.cpp): rigid tie of the member functions load / validate / value(v) /
+# base_widget::clear and of the constructor's initialiser list.  Every statement is printed in a canonical form; statements and the
+# three conditions that talk to the outside world must be EXACTLY the known ones (table below: canonical text -> effect on the state
+# (value tag, code_points_, is_set, is_valid)); the remaining conditions (over fields, getters and integers) are translated generically.
+#   value tags: 0 = "" (cleared), 1 = the value found in the request, 2 = the argument of the setter, anything else = untouched old value
+# ------------------------------------------------------------------------------------------------
+_W_SKIP = ('ImplicitCastExpr', 'ParenExpr', 'ExprWithCleanups', 'MaterializeTemporaryExpr', 'CXXBindTemporaryExpr', 'ConstantExpr')
+
+
+def w_canon(n):
+    k = n['kind']
+    if k in _W_SKIP:
+        return w_canon(n['inner'][0])
+    if k == 'CXXThisExpr':
+        return 'this'
+    if k == 'MemberExpr':
+        return w_canon(n['inner'][0]) + '.' + n['name']
+    if k == 'DeclRefExpr':
+        return n['referencedDecl'].get('name', '?')
+    if k == 'IntegerLiteral':
+        return str(n['value'])
+    if k == 'CXXBoolLiteralExpr':
+        return 'true' if n['value'] else 'false'
+    if k in ('CXXMemberCallExpr', 'CallExpr', 'CXXOperatorCallExpr'):
+        return w_canon(n['inner'][0]) + '(' + ','.join(w_canon(a) for a in n['inner'][1:]) + ')'
+    if k in ('BinaryOperator', 'CompoundAssignOperator'):
+        return '(' + w_canon(n['inner'][0]) + n['opcode'] + w_canon(n['inner'][1]) + ')'
+    if k == 'UnaryOperator':
+        return n['opcode'] + w_canon(n['inner'][0])
+    if k == 'CXXConstructExpr':
+        args = [a for a in n.get('inner', []) if a['kind'] != 'CXXDefaultArgExpr']
+        return w_canon(args[0]) if len(args) == 1 else 'ctor(' + ','.join(w_canon(a) for a in args) + ')'
+    if k in ('CXXFunctionalCastExpr', 'CStyleCastExpr', 'CXXStaticCastExpr'):
+        return 'cast<' + n['type']['qualType'] + '>(' + w_canon(n['inner'][0]) + ')'
+    return '<' + k + '>'
+
+
+W_STMT = {   # canonical statement -> [(state component, Coq expression)]
+    'this.pre_load(context)': [],
+    'this.value_.clear()': [('value', '(0)')],
+    '(this.code_points_=0)': [('cp', '(0)')],
+    'this.set(true)': [('is_set', 'true')],
+    'this.set(false)': [('is_set', 'false')],
+    'this.valid(true)': [('is_valid', 'true')],
+    'this.valid(false)': [('is_valid', 'false')],
+    'decl p': [],
+    'operator=(p,context.request().post_or_get().find(this.name()))': [],
+    'operator=(this.value_,operator->(p).second)': [('value', '(1)')],
+    '(this.code_points_=this.value_.size())': [('cp', 'vsize')],
+    'operator=(this.value_,v)': [('value', '(2)')],
+}
+W_COND = {   # canonical condition -> Coq bool over the inputs of the transition
+    'this.name().empty()': 'name_empty',
+    'operator==(p,context.request().post_or_get().end())': 'absent',
+    'this.validate_charset_': 'cs',
+}
+W_EV = '!valid(context.locale(),this.value_.data(),(this.value_.data()+this.value_.size()),this.code_points_)'
+# the setter (after the repair eb17578): !validate_charset_ || !encoding::valid_utf8(value_, code_points_)  -- short circuit: valid_utf8 is
+# only called (and code_points_ only touched) when charset validation is on
+W_EV8 = '(!this.validate_charset_||!valid_utf8(this.value_.data(),(this.value_.data()+this.value_.size()),this.code_points_))'
+W_STATE = ('value', 'cp', 'is_set', 'is_valid')
+
+
+class WidgetTr:
+    """one member function -> Gallina state transformer over (value, cp, is_set, is_valid)"""
+    def __init__(self, U):
+        self.U = U
+        self.n = 0
+
+    def fresh(self, b):
+        self.n += 1
+        return '%s_%d' % (b, self.n)
+
+    def cexpr(self, n, cur):
+        """conditions / values over fields, getters and integers"""
+        k = n['kind']
+        if k in _W_SKIP:
+            return self.cexpr(n['inner'][0], cur)
+        c = w_canon(n)
+        if c in ('this.low_', 'this.high_'):
+            return c[5:-1]
+        if c == 'this.code_points_':
+            return cur['cp']
+        if c == 'this.valid()':
+            return cur['is_valid']
+        if c == 'this.set()':
+            return cur['is_set']
+        if k == 'IntegerLiteral':
+            return '(%s)' % n['value']
+        if k == 'CXXBoolLiteralExpr':
+            return 'true' if n['value'] else 'false'
+        if k == 'UnaryOperator' and n['opcode'] == '!':
+            return '(negb %s)' % self.cexpr(n['inner'][0], cur)
+        if k == 'UnaryOperator' and n['opcode'] == '-' and _strip(n['inner'][0])['kind'] == 'IntegerLiteral':
+            return '(-%s)' % _strip(n['inner'][0])['value']
+        if k == 'CXXFunctionalCastExpr' and n['type']['qualType'] in ('size_t', 'std::size_t'):
+            return '(wrapu 64 %s)' % self.cexpr(n['inner'][0], cur)
+        if k == 'BinaryOperator':
+            a, b = self.cexpr(n['inner'][0], cur), self.cexpr(n['inner'][1], cur)
+            m = {'&&': 'andb %s %s', '||': 'orb %s %s', '==': 'Z.eqb %s %s', '<': 'Z.ltb %s %s', '>': 'Z.gtb %s %s', '>=': 'Z.geb %s %s',
+                 '<=': 'Z.leb %s %s'}.get(n['opcode'])
+            if m:
+                return '(' + m % (a, b) + ')'
+        raise self.U('widget tie: expression ' + c)
+
+    def tuple(self, cur):
+        return '(' + ', '.join(cur[x] for x in W_STATE) + ')'
+
+    def flat(self, st):
+        if st is None:
+            return []
+        if st['kind'] == 'CompoundStmt':
+            out = []
+            for c in st.get('inner', []) or []:
+                out += self.flat(c)
+            return out
+        return [st]
+
+    def stmts(self, ss, cur, ret_bool):
+        if not ss:
+            if ret_bool:
+                raise self.U('widget tie: control reaches the end of a bool function')
+            return self.tuple(cur)
+        s, rest = ss[0], ss[1:]
+        k = s['kind']
+        if k == 'ReturnStmt':
+            if ret_bool:
+                return '(%s, %s)' % (self.cexpr(s['inner'][0], cur), self.tuple(cur))
+            return self.tuple(cur)
+        if k == 'IfStmt':
+            cond = s['inner'][0]
+            cc = w_canon(cond)
+            pre, cur2 = '', dict(cur)
+            if cc in W_COND:
+                ce = W_COND[cc]
+            elif cc == W_EV:
+                r, ncp = self.fresh('r'), self.fresh('cp')
+                pre = '(let %s := ev %s in let %s := snd %s in ' % (r, cur['cp'], ncp, r)
+                cur2['cp'] = ncp
+                ce = '(negb (fst %s))' % r
+            elif cc == W_EV8:
+                r, ncp = self.fresh('r'), self.fresh('cp')
+                pre = '(let %s := (if cs then ev8 %s else (true, %s)) in let %s := snd %s in ' % (r, cur['cp'], cur['cp'], ncp, r)
+                cur2['cp'] = ncp
+                ce = '(orb (negb cs) (negb (fst %s)))' % r
+            else:
+                ce = self.cexpr(cond, cur)
+            a = self.flat(s['inner'][1])
+            b = self.flat(s['inner'][2]) if len(s['inner']) > 2 else []
+            ta = self.stmts(a + rest, dict(cur2), ret_bool)
+            tb = self.stmts(b + rest, dict(cur2), ret_bool)
+            return '%s(if %s then %s else %s)%s' % (pre, ce, ta, tb, ')' if pre else '')
+        c = 'decl ' + ','.join(x.get('name', '?') for x in s['inner']) if k == 'DeclStmt' else w_canon(s)
+        if c not in W_STMT:
+            raise self.U('widget tie: unknown statement ' + c)
+        cur = dict(cur)
+        txt = ''
+        for comp, e in W_STMT[c]:
+            nm = self.fresh(comp)
+            txt += '(let %s := %s in ' % (nm, e)
+            cur[comp] = nm
+        return txt + self.stmts(rest, cur, ret_bool) + ')' * len(W_STMT[c])
+
+
+def gen_widget(cxx2v, incs):
+    """-> text of g_text_load / g_text_validate / g_text_set_value / g_widget_clear / g_text_ctor_inits"""
+    U = cxx2v.Unsupported
+    src = os.path.join(vlib.REPO, 'src', 'form.cpp')
+
+    def method(filt, name, qual):
+        found = []
+        for o in cxx2v.run_clang(src, filt, incs):
+            _walk(o, lambda n, ps: found.append(n) if n.get('kind') in ('CXXMethodDecl', 'CXXConstructorDecl') and n.get('name') == name
+                  and _has_body(n) and n.get('type', {}).get('qualType') == qual else None)
+        if len(found) != 1:
+            raise U('widget tie: %s %s: %d definitions' % (filt, qual, len(found)))
+        return found[0]
+
+    def body(fd):
+        return [c for c in fd['inner'] if c['kind'] == 'CompoundStmt'][0]
+    out = []
+    head = "(st : Z * Z * bool * bool) :=\n  let '(value, cp, is_set, is_valid) := st in "
+    cur0 = dict((x, x) for x in W_STATE)
+    tr = WidgetTr(U)
+    out.append('Definition g_text_load (name_empty absent cs : bool) (vsize : Z) (ev : Z -> bool * Z) ' + head +
+               tr.stmts(tr.flat(body(method('base_text::load', 'load', 'void (http::context &)'))), cur0, False) + '.\n')
+    tr = WidgetTr(U)
+    out.append('Definition g_text_validate (low high : Z) ' + head +
+               tr.stmts(tr.flat(body(method('base_text::validate', 'validate', 'bool ()'))), cur0, True) + '.\n')
+    tr = WidgetTr(U)
+    out.append('Definition g_text_set_value (cs : bool) (vsize : Z) (ev8 : Z -> bool * Z) ' + head +
+               tr.stmts(tr.flat(body(method('base_text::value', 'value', 'void (std::string)'))), cur0, False) + '.\n')
+    tr = WidgetTr(U)
+    out.append('Definition g_widget_clear ' + head +
+               tr.stmts(tr.flat(body(method('base_widget::clear', 'clear', 'void ()'))), cur0, False) + '.\n')
+    ctor = method('base_text::base_text', 'base_text', 'void ()')
+    names = [c.get('anyInit', {}).get('name') for c in ctor['inner'] if c['kind'] == 'CXXCtorInitializer' and c.get('anyInit')]
+
+    def init_value(c):
+        e = _strip(c['inner'][0]) if c.get('inner') else {}
+        if e.get('kind') == 'IntegerLiteral':
+            return int(e['value'])
+        if e.get('kind') == 'CXXBoolLiteralExpr':
+            return 1 if e['value'] else 0
+        if e.get('kind') == 'UnaryOperator' and e.get('opcode') == '-' and _strip(e['inner'][0]).get('kind') == 'IntegerLiteral':
+            return -int(_strip(e['inner'][0])['value'])
+        return 999          # default-constructed / not a literal
+    values = [init_value(c) for c in ctor['inner'] if c['kind'] == 'CXXCtorInitializer' and c.get('anyInit')]
+    if body(ctor).get('inner'):
+        raise U('widget tie: base_text::base_text has a non-empty body')
+    out.append('(* members named in the initialiser list of base_text::base_text (explicitly or default-constructed) *)\n'
+               'Definition g_text_ctor_inits : list (list Z) :=\n  [%s].\n' % '; '.join('[%s]' % '; '.join(str(ord(ch)) for ch in nm) for nm in names))
+    out.append('(* their initial values: integer / bool literals (true = 1), 999 = default-constructed *)\n'
+               'Definition g_text_ctor_values : list Z := [%s].\n' % '; '.join('(%d)' % v for v in values))
+    return '\n'.join(out)
+
+
 def gen_c14():
     """writes coq/gen/Gen_C14.v from the current headers and src/encoding.cpp; returns [(name, error)]"""
     cxx2v, translate_validator, translate_step, translate_plain, translate_ptr_function, translate_table, translate_encoder, translate_decoder, translate_seq_encoder = make_translators()
+    # one clang run per (file, filter) and check run
+    _rc, _memo = cxx2v.run_clang, {}
+
+    def run_clang_memo(src, filt, incs, *a, **k):
+        key = (src, filt)
+        if key not in _memo:
+            _memo[key] = _rc(src, filt, incs, *a, **k)
+        return _memo[key]
+    cxx2v.run_clang = run_clang_memo
     out = os.path.join(vlib.COQ, 'gen', 'Gen_C14.v')
     tu = os.path.join(vlib.VERIF, 'harness', 'C14_tu.cpp')
     lines = ['(* GENERATED by checks/C14.py (tools/cxx2v.py) from private/utf_iterator.h, private/encoding_validators.h,',
@@ -767,6 +1001,8 @@ def gen_c14():
         txt, order = translate_ptr_function(decls('utf8::validate', 'FunctionDecl', 'validate', pred=is_validate3), 'g_val3', state_params=('p',))
         lines.append(txt)
         FILTER_SEGS['g_val3'] = order
+        # 7. widgets::base_text as an object with state (src/form.cpp)
+        lines.append(gen_widget(cxx2v, incs))
         for pre, want in EXPECT_SEGS.items():
             if FILTER_SEGS[pre] != want:
                 raise cxx2v.Unsupported('%s: the function is no longer of the shape %s (found %s)' % (pre, ' ; '.join(want), ' ; '.join(FILTER_SEGS[pre])))
@@ -775,6 +1011,7 @@ def gen_c14():
     except cxx2v.Unsupported as e:
         txt = '(* translator failed: %s *)\nDefinition broken : False := I.\n' % str(e).replace('*)', '* )').replace('"', "'")
         err = [('Gen_C14', str(e))]
+    cxx2v.run_clang = _rc
     with vlib.Lock('gen-Gen_C14'):
         vlib.write_if_changed(out, txt)
     return err
@@ -1184,6 +1421,19 @@ def gen_cases(ctx):
     for nm in ('iso88591', 'cp1252', 'koi8r', 'ascii'):
         for t in itertools.product([0x41, 0x09, 0x1B, 0x7F, 0x81, 0x9F, 0xA0, 0xFF], repeat=3):
             cases.append('flt %s %02x %s' % (hexs(nm.encode()), rng.choice((0x00, 0x3F)), hexs(bytes(t))))
+    # one output string object reused across consecutive filter calls (valid text must leave it alone, invalid text must replace it
+    # completely whatever it held: a long filtered text followed by a short one, a valid one in between)
+    for _ in range(ctx.scale(600, 6000)):
+        nm = rng.choice(u8names) if rng.random() < 0.6 else rng.choice(('iso88591', 'cp1251', 'koi8r', 'ascii')).encode()
+        isu = norm_name(nm) == 'utf8'
+        items = []
+        for _k in range(rng.randrange(2, 6)):
+            n = rng.choice((0, 1, 3, 12))
+            if isu:
+                items.append(mix(rng, n, rng.choice((0.0, 0.3, 0.6)), rng.choice((0.0, 0.2))))
+            else:
+                items.append(sb_string(rng, norm_name(nm), n, rng.choice((0.0, 0.3, 1.0))))
+        cases.append('fls %s %02x %s' % (hexs(nm), rng.choice((0, 0x3F)), ' '.join(hexs(x) for x in items)))
     for ln in ([2000] if ctx.quick() else [2000, 8000]):
         s = mix(rng, ln // 2, 0.01, 0.01)
         cases.append('flt 75746638 3f ' + hexs(s))
@@ -1270,6 +1520,222 @@ def form_oracle(case, out):
     if (o[1] == '1') != exp:
         return ('form-text-length-limit', 'text widget with limits %d..%d %s a valid value of %s characters (%d bytes)' % (
             low, high, 'accepted' if o[1] == '1' else 'rejected', n, len(v)))
+    return None
+
+
+# ---- one form object across several requests (seq cases): state that survives between operations on one widget ----
+def _seq_fields(rng, enc, vals):
+    f = []
+    for i in range(3):
+        r = rng.random()
+        if r < 0.3:
+            f.append('-')
+        elif r < 0.4:
+            f.append('=')
+        else:
+            f.append('=' + hexs(rng.choice(vals)))
+    return 'L' + ','.join(f)
+
+
+def _count_for(enc, v):
+    if enc == 'utf8':
+        try:
+            return len(v.decode('utf-8'))
+        except UnicodeDecodeError:
+            return len(v)
+    return len(v)
+
+
+def gen_seq_cases(ctx):
+    rng = ctx.rng
+    cases = []
+    locs = [b'en_US.UTF-8', b'de_DE.utf8', b'en_US.ISO8859-1', b'ru_RU.KOI8-R']
+    for loc in locs:
+        enc = locale_encoding(loc)
+        h = hexs(loc)
+        if enc == 'utf8':
+            vals = [b'abc', b'x', '\u20ac\u20ac'.encode(), 'h\xe9llo w\xf6rld'.encode(), '\U0001f600'.encode() * 4, b'\xff', b'\xe2\x82', b'a\x01b', b'0123456789']
+        else:
+            vals = [b'abc', b'x', b'\xe9\xe8', b'hello world', b'\x81\x01', b'a\x01b', b'0123456789']
+        # the scenario of the stale counter: a field present in the first request and absent (or empty) in the second one, with a lower
+        # limit (required field) and with an upper limit, on every widget, with and without clear() in between
+        for v in vals:
+            n = _count_for(enc, v)
+            for w in range(3):
+                for lim in ((1, -1), (0, max(0, n - 1)), (n, n), (n + 1, -1), (0, 3)):
+                    f1 = ['-', '-', '-']
+                    f1[w] = '=' + hexs(v)
+                    for mid in ('', 'C ', 'c%d ' % w):
+                        for second in ('-', '='):
+                            f2 = ['-', '-', '-']
+                            f2[w] = second
+                            cases.append('seq %s M%d=%d:%d L%s G V %sL%s G V F' % (h, w, lim[0], lim[1], ','.join(f1), mid, ','.join(f2)))
+        # random histories
+        for _ in range(ctx.scale(600, 6000)):
+            ops = []
+            for w in range(3):
+                if rng.random() < 0.7:
+                    n = _count_for(enc, rng.choice(vals))
+                    lo, hi = rng.choice(((1, -1), (0, n), (n, n), (n + 1, -1), (0, max(0, n - 1)), (0, -1), (0, 3), (2, 5)))
+                    ops.append('M%d=%d:%d' % (w, lo, hi))
+                if rng.random() < 0.15:
+                    ops.append('H%d=0' % w)
+            for _k in range(rng.randrange(2, 6)):
+                ops.append(_seq_fields(rng, enc, vals))
+                r = rng.random()
+                ops += ['V'] if r < 0.5 else ['G', 'V'] if r < 0.8 else ['F', 'V']
+                r = rng.random()
+                if r < 0.25:
+                    ops.append('C')
+                elif r < 0.35:
+                    ops.append('c%d' % rng.randrange(3))
+                if rng.random() < 0.3:
+                    ops.append(rng.choice(('G', 'V')))
+                if rng.random() < 0.1:
+                    w = rng.randrange(3)
+                    n = _count_for(enc, rng.choice(vals))
+                    ops.append('M%d=%d:%d' % (w, rng.choice((0, 1, n)), rng.choice((-1, n, n + 1))))
+                    ops.append(rng.choice(('H%d=0' % w, 'H%d=1' % w)))
+            cases.append('seq %s %s' % (h, ' '.join(ops)))
+    # the setter value(v) after loads of every kind and a never-loaded widget (the input classes of the former findings, repaired by eb17578)
+    for loc in locs:
+        enc = locale_encoding(loc)
+        h = hexs(loc)
+        svals = [b'', b'hi', '\u20ac'.encode(), b'\xff', b'a\x01b', b'0123456789', '\U0001f600\u00e9'.encode(), b'\xe2\x82']
+        for v in svals:
+            n = len(v.decode('utf-8')) if ref_cps(v) is not None else len(v)
+            for w in range(3):
+                for first in ('=616263', '-', '=ff', '='):
+                    for lim in ((1, -1), (n, n), (n + 1, -1), (0, max(0, n - 1)), (len(v), len(v))):
+                        f1 = ['-', '-', '-']
+                        f1[w] = first
+                        cases.append('seq %s M%d=%d:%d L%s V S%d=%s G V F' % (h, w, lim[0], lim[1], ','.join(f1), w, hexs(v) if v else ''))
+            cases.append('seq %s H0=0 M0=%d:%d S0=%s G V L-,-,- V' % (h, len(v), len(v), hexs(v) if v else ''))
+        for _ in range(ctx.scale(300, 3000)):
+            ops = []
+            for _k in range(rng.randrange(2, 7)):
+                r = rng.random()
+                w = rng.randrange(3)
+                if r < 0.35:
+                    ops.append(_seq_fields(rng, enc, [b'abc', '\u20ac\u20ac'.encode(), b'\xff', b'a\x01b'] if enc == 'utf8' else [b'abc', b'\xe9', b'a\x01b']))
+                elif r < 0.7:
+                    v = rng.choice(svals)
+                    ops.append('S%d=%s' % (w, hexs(v) if v else ''))
+                elif r < 0.8:
+                    ops.append(rng.choice(('C', 'c%d' % w)))
+                elif r < 0.9:
+                    ops.append('M%d=%d:%d' % (w, rng.choice((0, 1, 2)), rng.choice((-1, 1, 2, 10))))
+                else:
+                    ops.append('H%d=%d' % (w, rng.getrandbits(1)))
+                ops.append(rng.choice(('V', 'V', 'G', 'F')))
+            if not any(o.startswith('L') for o in ops):
+                ops.insert(0, 'L-,-,-')
+            cases.append('seq %s %s' % (h, ' '.join(ops)))
+    h = hexs(b'en_US.UTF-8')
+    cases.append('seq %s M0=1:-1 L=616263,-,- V S0= G V' % h)
+    cases.append('seq %s L-,-,- M0=1:-1 S0=68656c6c6f G V' % h)
+    cases.append('seq %s L=ff,-,- V S0=6f6b G V' % h)
+    cases.append('seq %s N00:1:-1 Nff:1:-1 N00:0:-1 Nff:0:3 N55:0:-1' % h)
+    return cases
+
+
+def seq_oracle(case, out):
+    """the property on the implementation alone: after any history of one widget, value() is the value of the last load (the field of the
+    last request, "" when it was absent) or of the last setter, it throws after clear(); validate() = the current value is valid for the
+    charset in force when it was loaded && its number of code points (bytes: single-byte charset / validation off) is within the current
+    limits && no validate() has failed since that value arrived"""
+    c = case.split()
+    o = out.split()
+    if out.startswith('<crash'):
+        return ('crash-seq', 'form harness died: ' + out)
+    if not o or o[0] != 'seq' or 'EXC' in o or 'BAD-OP' in out:
+        return ('bad-output-seq', 'unexpected harness answer ' + out[:200])
+    enc = locale_encoding(unhex(c[1]))
+    if enc not in TABLE:
+        return None
+    W = [dict(value=b'', src=None, set=False, low=0, high=-1, cs=True, cs_at=True, failed=False) for _ in range(3)]
+    obs = o[1:]
+    oi = 0
+
+    def expect(w):
+        v = w['value']
+        if w['src'] is None:
+            ok, n = True, 0
+        elif w['src'] == 'setter':
+            # value(v): never rejected; code points when charset validation is on and v is HTML-safe UTF-8, bytes otherwise
+            n = ref_valid(v, True) if w['cs_at'] else None
+            ok, n = True, (len(v) if n is None else n)
+        elif not w['cs_at']:
+            ok, n = True, len(v)
+        elif enc == 'utf8':
+            n = ref_valid(v, True)
+            ok = n is not None
+        else:
+            ref = sb_ref(enc)
+            ok, n = all(ref[b] for b in v), len(v)
+        return bool(ok and not w['failed'] and w['low'] <= n and (w['high'] < 0 or n <= w['high']))
+
+    for op in c[2:]:
+        k = op[0]
+        if k == 'L':
+            for i, f in enumerate(op[1:].split(',')):
+                w = W[i]
+                w.update(value=unhex(f[1:]) if f.startswith('=') and len(f) > 1 else b'', src='load', set=True, cs_at=w['cs'], failed=False)
+        elif k == 'C':
+            for w in W:
+                w['set'] = False
+        elif k == 'c':
+            W[int(op[1])]['set'] = False
+        elif k == 'S':
+            w = W[int(op[1])]
+            w.update(value=unhex(op[3:]) if len(op) > 3 else b'', src='setter', set=True, cs_at=w['cs'], failed=False)
+        elif k == 'M':
+            lo, hi = op[3:].split(':')
+            W[int(op[1])].update(low=int(lo), high=int(hi))
+        elif k == 'H':
+            W[int(op[1])]['cs'] = op[3] == '1'
+        elif k in ('V', 'F'):
+            if oi >= len(obs) or obs[oi][0] != k:
+                return ('bad-output-seq', 'observations out of step: ' + out[:200])
+            exp = [expect(w) for w in W]
+            if k == 'V':
+                got = [ch == '1' for ch in obs[oi][1:]]
+            else:
+                got = None
+                if (obs[oi][1] == '1') != all(exp):
+                    bad = [i for i in range(3) if not exp[i]] or [0]
+                    src = W[bad[0]]['src']
+                    return ('form-text-stale-state', 'form::validate() = %s, but the current values / limits give %s (history: %s)' % (obs[oi][1], exp, ' '.join(c[2:])))
+            for i in range(3):
+                if got is not None and got[i] != exp[i]:
+                    w = W[i]
+                    return ('form-text-stale-state', 'widget %d: validate() = %s although the current value %s (from the last %s%s) and limits %d..%d give %s: '
+                            'state of an earlier operation survived' % (i, got[i], w['value'].hex() or '""', w['src'], '' if w['set'] else ', then clear()',
+                                                                      w['low'], w['high'], exp[i]))
+            for i in range(3):
+                if not exp[i]:
+                    W[i]['failed'] = True          # a failed validate() is sticky until the next load / setter
+            oi += 1
+        elif k == 'G':
+            if oi >= len(obs) or obs[oi][0] != 'G':
+                return ('bad-output-seq', 'observations out of step: ' + out[:200])
+            got = obs[oi][1:].split(',')
+            for i in range(3):
+                w = W[i]
+                e = '!' if not w['set'] else (w['value'].hex() or '-')
+                if got[i] != e:
+                    return ('form-value-stale', 'widget %d: value() = %s, expected %s after %s' % (i, got[i], e, ' '.join(c[2:])))
+            oi += 1
+        elif k == 'N':
+            fill, lo, hi = op[1:].split(':')
+            lo, hi = int(lo), int(hi)
+            exp = lo <= 0 and (hi < 0 or 0 <= hi)
+            if oi >= len(obs) or obs[oi][0] != 'N':
+                return ('bad-output-seq', 'observations out of step: ' + out[:200])
+            if (obs[oi][1] == '1') != exp:
+                return ('form-text-stale-state', 'a never-loaded text widget (memory previously filled with 0x%s) with limits %d..%d: validate() = %s; '
+                        'the answer must be the limits applied to an empty value' % (fill, lo, hi, obs[oi][1]))
+            oi += 1
     return None
 
 
@@ -1553,6 +2019,30 @@ def oracle(case, out):
         return None
     if op in ('d16', 'c168', 'c816', 'e16'):
         return oracle16(op, c, o)
+    if op == 'fls':
+        nn = norm_name(unhex(c[1]))
+        repl = int(c[2], 16)
+        prev = b'\x01untouched'
+        if len(o) - 1 != len(c) - 3:
+            return ('bad-output-fls', 'wrong number of answers')
+        for h, t in zip(c[3:], o[1:]):
+            s = unhex(h)
+            if nn == 'utf8':
+                valid = ref_valid(s, True) is not None
+                exp = ref_filter_utf8(s, repl)
+            elif nn in TABLE:
+                ref = sb_ref(nn)
+                valid = all(ref[b] for b in s)
+                exp = b''.join(bytes([b]) if ref[b] else (bytes([repl]) if repl else b'') for b in s)
+            else:
+                return None
+            if valid:
+                exp = prev
+            if t[0] != ('v' if valid else 'f') or unhex(t[2:]) != exp:
+                return ('filter-output-depends-on-previous-content', 'validate_or_filter(%s) on %s with an output string that held %s: answer %s, expected %s:%s' % (
+                    nn, s.hex(), prev.hex(), t, 'v' if valid else 'f', exp.hex()))
+            prev = exp
+        return None
     return ('bad-case', 'unknown case ' + case[:100])
 
 
@@ -1689,7 +2179,7 @@ def _cp1254_ref():
 def nontrivial(case, out):
     c = case.split()
     op = c[0]
-    if op in ('grid', 'sb1', 'sb2', 'cmp', 'd16', 'c168'):
+    if op in ('grid', 'sb1', 'sb2', 'cmp', 'd16', 'c168', 'fls'):
         return True
     if op == 'e16':
         return int(c[1], 16) >= 0x80
@@ -1989,6 +2479,9 @@ def _run(ctx, box):
         'validation on/off; plus exact limit boundaries: n code points of 1..4 bytes each against limits n-1, n, n+1, (n,n) and the same around the byte length); '
         'UTF-16 (d16: all pairs of 16 boundary code units through utf_traits<char16_t>::decode on exactly sized blocks, e16: encode/width, c816 / c168: '
         'utf_to_utf between UTF-8 and UTF-16, skip and stop, on malformed mixes and unit strings with lone / swapped surrogates); '
+        'seq: ONE form with three text widgets across several requests (present / empty / absent fields, form.clear(), widget clear, setter, '
+        'limits and charset changes, repeated validate(), value()), scenario matrix first-present-then-absent x limits x clear + random histories; '
+        'fls: one output string reused across consecutive validate_or_filter calls; '
         'windows-1254/cp1254 (all bytes) and EUC-JP, Shift_JIS, GB2312, GBK, CP936, Big5, EUC-KR, CP866 (safe repertoire, truncations, control characters) '
         'through the iconv/ICU fall-back (oracle only, no model). Every tier: all sequences of '
         'length 1..3 natively under ASan against a table-driven reference (one evaluation per block of 1/256/65536 sequences); thorough adds all 2^32 '
@@ -2005,6 +2498,14 @@ def _run(ctx, box):
                 ctx.broke('sweep harness (ASan) build failed', err)
             else:
                 vlib.differential(ctx, sw, sexe, None, make_sw_oracle([]), impl_env=ASAN_ENV, parallel=False)
+        seqc = [c for c in cases if c.startswith('seq ')]
+        cases = [c for c in cases if not c.startswith('seq ')]
+        if seqc:
+            fexe, err = vlib.build_harness('C14_form', ['C14_form.cpp'], extra=['-I' + os.path.join(vlib.REPO, 'tests')])
+            if not fexe:
+                ctx.broke('form harness build failed', err)
+            else:
+                vlib.differential(ctx, seqc, fexe, mexe, seq_oracle)
         frm = [c for c in cases if c.startswith('frm ')]
         cases = [c for c in cases if not c.startswith('frm ')]
         if frm:
@@ -2020,14 +2521,19 @@ def _run(ctx, box):
         if fb:
             vlib.differential(ctx, fb, exe, None, oracle, nontrivial, classify)
         return
-    cases = vlib.corpus_cases('C14') + gen_cases(ctx)
+    corpus = vlib.corpus_cases('C14')
+    cases = [c for c in corpus if not c.startswith(('seq ', 'frm '))] + gen_cases(ctx)
     vlib.differential(ctx, cases, exe, mexe, oracle, nontrivial, classify)
     fexe, err = vlib.build_harness('C14_form', ['C14_form.cpp'], extra=['-I' + os.path.join(vlib.REPO, 'tests')])
     if not fexe:
         ctx.broke('form harness build failed', err)
     else:
-        vlib.differential(ctx, gen_form_cases(ctx), fexe, mexe, form_oracle, lambda c, o: True, lambda c, o: 'frm:' + ' '.join(o.split()[1:3]),
+        vlib.differential(ctx, [c for c in corpus if c.startswith('frm ')] + gen_form_cases(ctx), fexe, mexe, form_oracle, lambda c, o: True, lambda c, o: 'frm:' + ' '.join(o.split()[1:3]),
                           what='correspondence model vs form widget')
+    if fexe:
+        vlib.differential(ctx, [c for c in corpus if c.startswith('seq ')] + gen_seq_cases(ctx), fexe, mexe, seq_oracle, lambda c, o: True,
+                          lambda c, o: 'seq:%d-loads%s%s' % (c.count(' L'), ':clear' if (' C' in c or ' c' in c) else '', ':setter' if ' S' in c else ''),
+                          what='correspondence model vs one form object across requests')
     fb = gen_fallback_cases(ctx)
     vlib.differential(ctx, fb, exe, None, oracle, nontrivial, lambda c, o: 'fallback:' + classify(c, o), what='fallback (oracle only)')
     ctx.coverage['fallback_oracle_only'] = len(fb)
